@@ -16,6 +16,13 @@ mod sort;
 use mc::{json, Level, Report};
 
 fn main() {
+    // The subject's radix sort allocates (and frees) a 256 KiB histogram per call; glibc serves
+    // that with mmap/munmap, which serialises 16 worker threads on page faults.  Keep such blocks
+    // on the heap instead.  Harness-side allocator tuning only; the code under test is unchanged.
+    unsafe {
+        libc::mallopt(libc::M_MMAP_THRESHOLD, 64 << 20);
+        libc::mallopt(libc::M_TRIM_THRESHOLD, 512 << 20);
+    }
     let r = Report::new("C03", Level::Exploration);
     mc::quiet_panics();
     r.rule(
